@@ -848,7 +848,7 @@ func (ls *LanceroSource) distributeData(buffersMsg BuffersChanType) *dataBlock {
 	// Then we record the "rowcounts", where rowcount = nrow*framecount+row
 	// external trigger search must occur before Mix, since mix alters FB in place
 	externalTriggerRowcounts := make([]int64, 0)
-	nrows := ls.devices[0].nrows
+	nrows := ls.active[0].nrows
 	for frame := 0; frame < framesUsed; frame++ { // frame within this block, need to add ls.nextFrameNum for consistent timing across blocks
 		for row := 0; row < nrows; row++ { // search the first column for frame bit level triggers
 			channelIndex := row*2 + 1
